@@ -5,6 +5,7 @@ package main
 import (
 	"context"
 	"fmt"
+	"time"
 
 	bp "ebuverif/internal/busprog"
 	"ebuverif/internal/evt"
@@ -28,12 +29,12 @@ import (
 // The bus is still a bus: an eligible publish fires the Once handler exactly once.
 type lifecase struct {
 	kind int
-	mode int // 0 cancelled by a later handler, 1 cancelled by another task, 2 after a Shutdown that gave up, 3 after a Shutdown that completed
+	mode int // 0 cancelled by a later handler, 1 cancelled by another task, 2 after a Shutdown that gave up, 3 after a Shutdown that completed, 4 behind a slow handler on a persisting bus with a short persistence timeout
 }
 
 func (m lifecase) name() string {
 	return fmt.Sprintf("once-%s/%s", kinds[m.kind].name, []string{"fired-then-publish-cancelled-by-a-later-handler", "first-in-list-publish-cancelled-by-another-task",
-		"subscribed-after-a-shutdown-that-gave-up", "subscribed-after-a-shutdown-that-completed"}[m.mode])
+		"subscribed-after-a-shutdown-that-gave-up", "subscribed-after-a-shutdown-that-completed", "behind-a-slow-handler-on-a-bus-with-a-short-persistence-timeout"}[m.mode])
 }
 
 type lifeInst struct {
@@ -52,6 +53,21 @@ func (in *lifeInst) Body() {
 		filter = func(id int) bool { return id%2 == 0 }
 	}
 	once := func(_ context.Context, id int) { in.rec.Add("once", id, 0, "") }
+	if in.m.mode == 4 {
+		// the persistence timeout bounds the append; it is not a deadline for the publish: a
+		// handler in front of the Once handler that takes (virtual) time far beyond it does
+		// not make a publish with a live context skip the Once handler
+		bus = eventbus.New(eventbus.WithStore(eventbus.NewMemoryStore()), eventbus.WithPersistenceTimeout(100*time.Microsecond))
+		A.SubCustom(bus, func(_ context.Context, id int) { vrt.Sleep(time.Millisecond) }, nil, evt.SubOpts{})
+		A.SubCustom(bus, once, filter, o)
+		for _, id := range []int{2, 4} {
+			A.Pub(bus, id)
+		}
+		vrt.Join()
+		bus.Wait()
+		in.rec.Add("count", A.Count(bus), 0, "")
+		return
+	}
 	if in.m.mode >= 2 {
 		gate := make(chan struct{})
 		A.SubCustom(bus, func(_ context.Context, id int) {
@@ -141,7 +157,7 @@ func (in *lifeInst) Check(res *vrt.Result) []vrt.Violation {
 		case "count":
 			if in.m.mode >= 2 {
 				if e.A != 1 {
-					bad(fmt.Sprintf("after two eligible publishes HandlerCount is %d (want 1: the asynchronous handler; the Once handler has fired)", e.A))
+					bad(fmt.Sprintf("after two eligible publishes HandlerCount is %d (want 1: the other handler; the Once handler has fired)", e.A))
 				}
 				continue
 			}
@@ -167,7 +183,7 @@ func (in *lifeInst) Check(res *vrt.Result) []vrt.Violation {
 func lifecases() []lifecase {
 	var l []lifecase
 	for k := range kinds {
-		for mode := 0; mode < 4; mode++ {
+		for mode := 0; mode < 5; mode++ {
 			l = append(l, lifecase{k, mode})
 		}
 	}
